@@ -69,8 +69,8 @@ def classify(tr, line, clause):
             and e.get("obs") == "ret" and d.get("wf") in ("badRdata", "trailing", "badQuestion")
             and not (d.get("wf") == "trailing" and cfg.get("it"))):
         return "F15:async-ignore_errors-returns-malformed:%s" % d["wf"]
-    return "%s:udp:%s:%s:%s:src=%s,wf=%s,qr=%s,id=%s,op=%s,q=%s,tc=%s:%s:%s" % (
-        clause, cfg.get("api"), flavor,
+    return "%s:udp:%s%s:%s:%s:src=%s,wf=%s,qr=%s,id=%s,op=%s,q=%s,tc=%s:%s:%s" % (
+        clause, cfg.get("api"), ("" if cfg.get("qop", "QUERY") == "QUERY" else "(sent=%s)" % cfg["qop"]), flavor,
         ("".join(k for k in ("iu", "ie", "rot", "it", "mcast", "hasq", "anysrc") if cfg.get(k)) or "-")
         + (",timeout=%s" % cfg["tz"] if cfg.get("tz", "-") != "-" else ""),
         d.get("src"), d.get("wf"), d.get("qr"), d.get("idm"), d.get("opm"), d.get("qm"), d.get("tc"),
@@ -106,6 +106,10 @@ def generate_jobs(ctx, quick):
     us += gen_udp(ctx, "u4c.cfg", "GCoreQ" if quick else "GCore", "GCfgUdpMc", 2, 0)
     # U5: the clock: would-blocks, short deadlines, no deadline
     us += gen_udp(ctx, "u5.cfg", "GClockD", "GCfgClock", 2, 3 if quick else 4)
+    # U7: the message sent is a NOTIFY, a STATUS or a dynamic UPDATE: same id, opcode and question for each
+    us += gen_udp(ctx, "u7.cfg", "GDev1", "GCfgOps", 1, 0)
+    us += gen_udp(ctx, "u7b.cfg", "GCoreQ" if quick else "GCore", "GCfgOps", 2, 0)
+    us += gen_udp(ctx, "u7c.cfg", "GCore", "GCfgOpsApi", 1, 0)
     if not quick:
         us += gen_udp(ctx, "u6.cfg", "GDev2", "GCfgAllApi", 1, 0)
     seen = set()
@@ -117,8 +121,7 @@ def generate_jobs(ctx, quick):
             uscripts.append(s)
     ujobs = {}
     for i, s in enumerate(uscripts):
-        qop = "NOTIFY" if i % 6 == 5 else "QUERY"
-        ujobs["u%d" % i] = ("u%d" % i, s, qop, (i * 7 + ctx.seed) % 12)
+        ujobs["u%d" % i] = ("u%d" % i, s, s["cfg"]["qop"], (i * 7 + ctx.seed) % 12)
     # ---------------------------------------------------------------- stream scripts
     ss = []
     ss += gen_stream(ctx, "s1.cfg", "GRecvGoodQ", 2 if quick else 3, 1000, 0)
@@ -132,6 +135,10 @@ def generate_jobs(ctx, quick):
         ss += gen_stream(ctx, "s4b.cfg", "GSend", 1, 40, 2)
         ss += gen_stream(ctx, "s5b.cfg", "GTcp", 1, 1000, 2)
     ss += gen_stream(ctx, "s6.cfg", "GClock", 1, 0, 3)
+    # S7: tcp() / tls() making their own connection: set-up time (connect, handshake) counts against the deadline
+    ss += gen_stream(ctx, "s7.cfg", "GOwn", 0 if quick else 1, 0, 3 if quick else 4)
+    # S8: other kinds of message sent over the stream
+    ss += gen_stream(ctx, "s8.cfg", "GOps", 1, 0, 0)
     sjobs = {}
     for i, s in enumerate(ss):
         sjobs["s%d" % i] = ("s%d" % i, s)
